@@ -24,6 +24,7 @@ LEVEL = "fault_enumeration"
 HASHSEED_VARIES = True
 RUN_WALL_S = 20  # a run takes ~30 ms; a pool that is never pumped must not stall the batch for a minute
 TIERS = {"quick": 2400, "thorough": 60000}
+LOCALE_VARIES = True  # three of the sixteen shards run in a non-UTF-8 locale (simkit/runner.py: hashseed_for)
 RULE = (
     "one run = one directory layout (1-3 roots; nested, empty and trap directories; 0-12 .swc files per root "
     "each with a unique signature; other extensions) + a history of up to 12 operations (build population, len, "
@@ -83,6 +84,14 @@ def generate(rng: Prng, tier: str) -> dict:
                 files.append(f"r{r}/{o}")
         if w.chance(0.15):
             files.append(f"r{r}/trap.swc/in.swc")
+        hid = rng.stream(f"hidden{r}")
+        if hid.chance(0.2):
+            # hidden folders and files (a name starting with a dot), next to a visible twin of the same name
+            files.append(f"r{r}/.bak/x.swc")
+            if hid.chance(0.6):
+                files.append(f"r{r}/bak/x.swc")
+            if hid.chance(0.3):
+                files.append(f"r{r}/..weird/.h.swc")
     dirs = [f"r{r}/{d}" for r in range(n_roots) for d in EMPTY_DIRS if w.chance(0.3)]
     listing = []
     if faulting:
